@@ -286,6 +286,19 @@ def judge_events(res, sessions, name):
     return rejects
 
 
+def witnesses(res, mutant, workers=2):
+    """WITNESS histories that TLC prints for one single-fault configuration HydroSession_mut_<mutant>.cfg"""
+    r = tlc.run("hydro", "HydroSession", cfg=f"HydroSession_mut_{mutant}.cfg", workers=workers, heap="1g", tag=f"hsw_{mutant}_{os.getpid()}")
+    res.add_tlc(r)
+    hs = {}
+    for m in re.finditer(r'<<"WITNESS",\s*"((?:[^"\\]|\\.)*)">>', r.out, re.S):
+        js = re.sub(r"\s*\n\s*", "", m.group(1)).encode().decode("unicode_escape")
+        hs[js] = json.loads(js)
+    if not hs:
+        res.machinery(f"design regression '{mutant}' has no witness history in the model (vacuous):\n" + r.out[-1500:])
+    return sorted(hs.values(), key=lambda h: (len(h), json.dumps(h)))
+
+
 def histories(res, tier, rng):
     """behaviours of the session model: exhaustive check of the library design, TLC-simulated behaviours,
     and the shortest histories TLC finds to expose each single design regression"""
